@@ -161,6 +161,12 @@ type c20Config struct {
 	inFailAt   int
 	inPartial  bool
 	hasInbound bool
+	// Rereg: before every message after the first a new inbound connection is registered on the
+	// same fail-over pair, the way the proxy does with every request that arrives over TCP (the
+	// client has reconnected); that connection fails on its first write as well
+	Rereg bool `json:"new_failing_inbound_connection_registered_before_each_later_message"`
+	// WaitMs: time that passes between the creation of the transports and the first message
+	WaitMs int `json:"idle_ms_before_first_message"`
 }
 
 // c20Run executes one configuration and returns a violation description or "".
@@ -205,6 +211,7 @@ func c20Run(cfg c20Config, rnd *rand.Rand) (why string, detail map[string]any) {
 		}
 	}
 	var send func(m *Message) error
+	var fct *FailOverClientTransport
 	if cfg.Target == "client" {
 		var primary, secondary ClientTransport
 		if inbound != nil {
@@ -218,7 +225,7 @@ func c20Run(cfg c20Config, rnd *rand.Rand) (why string, detail map[string]any) {
 			}
 			secondary = s
 		}
-		fct := NewFailOverClientTransport(primary, secondary)
+		fct = NewFailOverClientTransport(primary, secondary)
 		send = fct.Send
 	} else {
 		be, _ := NewTCPBackend("127.0.0.1:0", net.JoinHostPort("127.0.0.1", strconv.Itoa(port)), onEst)
@@ -232,11 +239,18 @@ func c20Run(cfg c20Config, rnd *rand.Rand) (why string, detail map[string]any) {
 		panicked string
 		hung     bool
 	}
+	if cfg.WaitMs > 0 {
+		time.Sleep(time.Duration(cfg.WaitMs) * time.Millisecond)
+	}
 	results := make([]res, cfg.Messages)
 	wire := make([][]byte, cfg.Messages)
 	for i := 0; i < cfg.Messages; i++ {
 		m, b := c20Message(i, cfg.Size, rnd)
 		wire[i] = b
+		if cfg.Rereg && i > 0 && fct != nil {
+			p, _ := NewTCPClientTransportWithConn(newC20Conn(1, false))
+			fct.primary = p
+		}
 		done := make(chan res, 1)
 		go func() {
 			var r res
@@ -309,6 +323,9 @@ func c20Run(cfg c20Config, rnd *rand.Rand) (why string, detail map[string]any) {
 	}
 	detail["connections_accepted_by_destination"] = len(sinkBufs)
 	inboundAlive := func(i int) bool { // was the inbound connection usable when message i was sent?
+		if cfg.Rereg && i > 0 {
+			return false
+		}
 		return cfg.hasInbound && (cfg.inFailAt == 0 || i+1 < cfg.inFailAt)
 	}
 	for i, r := range results {
@@ -407,8 +424,12 @@ func TestVerifC20(t *testing.T) {
 							if run.Violations() > 5 {
 								break
 							}
+							for _, rereg := range []bool{false, true} {
+							if rereg && (target != "client" || msgs < 2 || rc == "accept-reset") {
+								continue
+							}
 							cfg := c20Config{Target: target, Inbound: in.name, Reconnect: rc, Messages: msgs, Size: size,
-								inFailAt: in.failAt, inPartial: in.partial, hasInbound: in.has}
+								inFailAt: in.failAt, inPartial: in.partial, hasInbound: in.has, Rereg: rereg}
 							why, detail := c20Run(cfg, rnd)
 							if why != "" {
 								// confirm once before reporting (real sockets are involved)
@@ -420,15 +441,50 @@ func TestVerifC20(t *testing.T) {
 								}
 							}
 							n++
-							run.Eval(fmt.Sprintf("%s|%s|%s|%d|%d", target, in.name, rc, msgs, size))
+							run.Eval(fmt.Sprintf("%s|%s|%s|%d|%d|rereg=%v", target, in.name, rc, msgs, size, rereg))
 							if run.WantSample() && in.failAt == 2 && rc == "fresh" && msgs == 3 {
 								run.Sample(map[string]any{"config": cfg, "observed": detail})
+							}
 							}
 						}
 					}
 				}
 			}
 		}
+	}
+	// the same fault patterns after the transports have been idle for a while (what was set up
+	// when a transport object was created must still hold when it is first needed)
+	{
+		var late []c20Config
+		for _, target := range []string{"client", "backend"} {
+			for _, in := range []inb{{"absent", false, 0, false}, {"fail@1", true, 1, false}, {"healthy", true, 0, false}} {
+				for _, rc := range []string{"fresh", "stale-once"} {
+					if target == "backend" && rc == "stale-once" {
+						continue
+					}
+					late = append(late, c20Config{Target: target, Inbound: in.name, Reconnect: rc, Messages: 2, Size: sizes[0],
+						inFailAt: in.failAt, inPartial: in.partial, hasInbound: in.has, WaitMs: 5600})
+				}
+			}
+		}
+		var lwg sync.WaitGroup
+		for k, cfg := range late {
+			lwg.Add(1)
+			go func(k int, cfg c20Config) {
+				defer lwg.Done()
+				lr := rand.New(rand.NewSource(run.Seed*977 + int64(k)))
+				if why, detail := c20Run(cfg, lr); why != "" {
+					if why2, _ := c20Run(cfg, lr); why2 != "" {
+						run.Violation(fmt.Sprintf("%s/%s/%s after %d ms of idleness: %s", cfg.Target, cfg.Inbound, cfg.Reconnect, cfg.WaitMs, why), map[string]any{"config": cfg, "why": why, "observed": detail})
+					} else {
+						run.Inconclusive(1)
+					}
+				}
+				run.Eval(fmt.Sprintf("%s|%s|%s|idle%d", cfg.Target, cfg.Inbound, cfg.Reconnect, cfg.WaitMs))
+			}(k, cfg)
+		}
+		lwg.Wait()
+		n += len(late)
 	}
 	run.Observe("configurations_executed", n)
 	run.Exhaustive(true)
